@@ -182,10 +182,10 @@ class Ctx:
         cmd = ["timeout", str(timeout), "coqchk", "-silent", "-o", "-Q", COQ, "NQ", "-Q", self.build, "Gen", "Gen." + name]
         r = subprocess.run(cmd, capture_output=True, text=True, cwd=self.build)
         self.checker_cmds.append(f"coqchk -silent -o -Q coq NQ -Q build/{self.id} Gen Gen.{name}")
-        m = re.search(r"\* Axioms:(.*?)\n\s*\n\* Constants", r.stdout, flags=re.S)
+        m = re.search(r"\* Axioms:(.*?)\n\s*\* Constants", r.stdout, flags=re.S)
         axioms = " ".join(m.group(1).split()) if m else "?"
         ok = r.returncode == 0
-        self.assumptions_printed["coqchk"] = dict(ok=ok, axioms=axioms)
+        self.assumptions_printed.setdefault("coqchk", {})[name] = dict(ok=ok, axioms=axioms)
         self.gen_obligation(f"coqchk accepts Gen.{name} and its dependencies", ok, (r.stdout + r.stderr)[-300:])
         if ok and "<none>" not in axioms:
             self.notes.append(f"coqchk reports axioms for {name}: {axioms}")
@@ -244,7 +244,8 @@ class Ctx:
                 closed += 1
             elif b.startswith("Axioms:"):
                 for line in b.splitlines()[1:]:
-                    m = re.match(r"^(\S+)\s*:", line)
+                    # "name : type" on one line, or the name alone with the type on continuation lines
+                    m = re.match(r"^([A-Za-z_][\w.']*)\s*(:|$)", line)
                     if m:
                         axioms.append(m.group(1))
         self.assumptions_printed.setdefault("closed", 0)
